@@ -1,10 +1,8 @@
 #!/bin/sh
-# Builds the harness binaries once (warms the Go build cache), offline.
+# Builds every harness binary once from files on disk (warms the Go build cache), offline.
 set -e
 cd "$(dirname "$0")"
 export GOFLAGS=-mod=mod GOPROXY=off GOSUMDB=off GOTOOLCHAIN=local
 mkdir -p out evidence
-cat /repo/go.sum > harness/go.sum
-[ -f harness/go.sum.extra ] && cat harness/go.sum.extra >> harness/go.sum
-(cd harness && go test -c -tags verif -o ../out/props.test ./props)
+./check --build-all
 echo setup ok
